@@ -167,6 +167,10 @@ def build(tree):
         variant = (len(repr(tree)) + tree[1]) % 3
         l, r = tree[2], tree[3]
         name = BIN[tree[1]][0]
+        if l == r and l[0] != "val" and len(repr(tree)) % 2:
+            # ONE roller object used as both operands: it is still rolled once per operand, independently
+            shared = build(l)
+            return BIN_PY[name](shared, shared) if name in BIN_PY else getattr(shared, name)(shared)
         if variant == 0 or name in ("lt", "eq", "ge", "ne", "le", "gt") and variant == 1:
             if name in BIN_PY:
                 if l[0] == "val":
@@ -485,6 +489,8 @@ def rand_tree(rnd, size):
     if r < 0.5:
         op = rnd.choice(list(BIN))
         right = rand_tree(rnd, (size - 1) // 2)
+        if rnd.random() < 0.12 and BIN[op][0] not in ("pow", "floordiv", "mod"):
+            return ["bin", op, right, right]  # both operands the same expression (sometimes the same object)
         if BIN[op][0] == "pow":
             right = ["val", rnd.randint(0, 3)]  # negative exponents leave the integers
         elif BIN[op][0] in ("floordiv", "mod") and rnd.random() < 0.5:
